@@ -43,7 +43,7 @@ def ty_text(t):
     return t[0]
 
 
-LLVM14_MISSING = {"repeated-include", "named-args", "uninitialised-field", "untyped-question", "!exists", "!div", "!tolower", "!toupper", "!range", "!getdagarg", "!getdagname", "!setdagarg",
+LLVM14_MISSING = {"empty-list-no-context", "repeated-include", "named-args", "uninitialised-field", "untyped-question", "!exists", "!div", "!tolower", "!toupper", "!range", "!getdagarg", "!getdagname", "!setdagarg",
                   "!setdagname", "!listremove", "!logtwo", "!listflatten", "!repr", "!initialized", "dump"}
 
 
@@ -415,8 +415,18 @@ class Gen:
         else:
             self.literal(t, depth)
 
+    def empty_list(self, depth):
+        """`[]` as an operand whose inferred type (list<any>) other operands are compared with"""
+        self.w("[]")
+        self.feat("empty-list-operand")
+        if depth > 1 or not self.field_init:
+            self.feat("empty-list-no-context")     # llvm-tblgen-14: `[]` needs a context type
+
     def value_same_shape(self, t, depth):
         """for the two branches of !if: values whose inferred types are mutually convertible"""
+        if t[0] == "list" and self.r.random() < 0.25:
+            self.empty_list(depth)
+            return
         if t[0] in ("class", "list"):
             ids = [(n, s) for n, s in self.idents_of(t) if s.ty == t and s.exact]
             if ids and self.r.random() < 0.5:
@@ -440,8 +450,11 @@ class Gen:
         else:
             self.value_exact(t, depth)
 
-    def value_exact(self, t, depth):
+    def value_exact(self, t, depth, empty_ok=False):
         """a value whose inferred type is exactly t (no bit/int mixing)"""
+        if empty_ok and t[0] == "list" and self.r.random() < 0.3:
+            self.empty_list(depth)
+            return
         ids = [(n, s) for n, s in self.idents_of(t) if s.ty == t and s.exact]
         if ids and self.r.random() < 0.5:
             n, s = self.r.choice(ids)
@@ -528,6 +541,7 @@ class Gen:
 
         V = lambda ty: (lambda: self.value(ty, d))
         X = lambda ty: (lambda: self.value_exact(ty, d))
+        X0 = lambda ty: (lambda: self.value_exact(ty, d, empty_ok=True))    # `[]` allowed in every position
         if k == "int":
             c = r.choice(["arith", "arith2", "size", "find", "foldl", "head", "logtwo", "cast"])
             if c == "arith":
@@ -595,7 +609,7 @@ class Gen:
             et = t[1]
             c = r.choice(["concat", "splat", "foreach", "filter", "tail", "range", "remove", "flatten"])
             if c == "concat":
-                call("!listconcat", [X(t), X(t)] + ([X(t)] if r.random() < 0.3 else []))
+                call("!listconcat", [X0(t), X0(t)] + ([X0(t)] if r.random() < 0.3 else []))
             elif c == "splat":
                 call("!listsplat", [X(et), V(INT)])
             elif c == "foreach":
@@ -642,11 +656,11 @@ class Gen:
             elif c == "range" and et == INT:
                 call("!range", [V(INT)] + ([V(INT)] if r.random() < 0.5 else []))
             elif c == "remove":
-                call("!listremove", [X(t), X(t)])
+                call("!listremove", [X0(t), X0(t)])
             elif c == "flatten" and et[0] != "list":
                 call("!listflatten", [X(LIST(t))])
             else:
-                call("!listconcat", [X(t), X(t)])
+                call("!listconcat", [X0(t), X0(t)])
         elif k == "dag":
             c = r.choice(["con", "setop", "lit"])
             if c == "con":
@@ -745,7 +759,7 @@ class Gen:
         cands = [c for c in sorted(self.classes) if self.classes[c].complete]
         if not cands or r.random() < 0.25:
             return
-        k = r.choice([1, 1, 1, 2])
+        k = r.choice([1, 1, 1, 2, 2, 3])
         chosen = []
         merged = dict(rec.fields)
         for _ in range(k):
@@ -773,6 +787,13 @@ class Gen:
             site = self.use(c, self.classes[c].key, site="class-parent")
             self.args(self.classes[c].targs, 1, owner=site)
             rec.ancestors |= {c} | self.classes[c].ancestors
+            # parents are attached one by one: the fields inherited from this parent (and its ancestors) are in
+            # scope while the arguments of the LATER parents of the same list are written
+            for fn, fs in self.classes[c].fields.items():
+                if fn not in self.frames[-1]:
+                    self.bind(fn, fs)
+            if i + 1 < len(chosen):
+                self.feat("multi-parent")
         for fn, fs in merged.items():
             rec.fields.setdefault(fn, fs)
 
